@@ -70,7 +70,7 @@ Definition remove_unused_gates (b : builder) (pw outs : list N)
   let roots := outs ++ pw in
   let used0 := fold_left (mark shift) roots nempty in
   let used := mark_pass shift (b_gates_rev b) (b_ngates b) used0 in
-  let gs := rev (b_gates_rev b) in
+  let gs := frev (b_gates_rev b) in
   let '(tbl, _) := count_unused gs 0 0 used nempty in
   let* gs' := keep_used shift tbl used gs 0 in
   let* pw' := mapM_res (shift_idx shift tbl) pw in
